@@ -20,7 +20,10 @@ def isWipeEv : Ev → Bool
 
 /-- (c) a usable segment is taken over in place: start-up performs no wipe step at all -/
 theorem usable_never_wiped (f : FileA) (h : f.usable = true) : ∀ e ∈ script f, isWipeEv e = false := by
-  sorry
+  rw [script_usable f h]
+  intro e he
+  simp only [List.mem_cons, List.not_mem_nil, or_false] at he
+  rcases he with rfl | rfl | rfl | rfl | rfl | rfl | rfl | rfl | rfl | rfl | rfl | rfl | rfl | rfl <;> rfl
 
 /-- (c) wherever the writer dies during start-up and its first publication over a usable segment,
     the segment stays usable, keeps its length, and is never emptied -/
@@ -28,7 +31,11 @@ theorem usable_preserved (f : FileA) (rec : List Nat) (k : Nat) (h : f.usable = 
     (runUntil f rec k).1.usable = true ∧ (runUntil f rec k).1.len = f.len ∧
     (runUntil f rec k).1.present = true ∧
     ((runUntil f rec k).1.cells = f.cells ∨ (runUntil f rec k).1.cells = rec) := by
-  sorry
+  have _ := hg   -- not needed: the generation never becomes 0, whatever its width
+  obtain ⟨h1, h2, h3, h4, h5, h6, h7⟩ := (usable_iff f).1 h
+  have hs := genStart_ne_zero f.gen
+  rcases runUntil_usable_cases f rec k h with e | e | e | e | e <;> rw [e] <;>
+    refine ⟨?_, ?_, ?_, ?_⟩ <;> simp [usable_iff, finalUsable, genFinish_ne_zero, *]
 
 /-- (d) repair: whatever the file contained, wherever a first incarnation died, after a restarted
     writer's start-up and first publication the segment is usable, holds exactly the published
@@ -37,19 +44,45 @@ theorem restart_repairs (f : FileA) (rec1 rec2 : List Nat) (k : Nat) (hg : f.gen
     let f2 := runAll (runUntil f rec1 k).1 rec2
     f2.usable = true ∧ f2.cells = rec2 ∧ f2.gen % 2 = 0 ∧ f2.gen ≠ 0 ∧ f2.version = 1 ∧
     (({} : ReaderA).snap f2).cache = rec2 := by
-  sorry
+  intro f2
+  have _ := hg   -- not needed: `genFinish (genStart g)` is even and non-zero for every `g`
+  have key : ∀ g : FileA, (runAll g rec2).usable = true ∧ (runAll g rec2).cells = rec2 ∧
+      (runAll g rec2).gen % 2 = 0 ∧ (runAll g rec2).gen ≠ 0 ∧ (runAll g rec2).version = 1 := by
+    intro g
+    cases hu : g.usable
+    · rw [runAll_unusable g rec2 hu]; simp [finalFresh, usable_iff]
+    · rw [runAll_usable g rec2 hu]
+      exact ⟨finalUsable_usable g rec2 hu, rfl, genFinish_even _ (genStart_odd _), genFinish_ne_zero _, rfl⟩
+  obtain ⟨k1, k2, k3, k4, k5⟩ := key (runUntil f rec1 k).1
+  refine ⟨k1, k2, k3, k4, k5, ?_⟩
+  show (ReaderA.snap {} f2).cache = rec2
+  have k3' : f2.gen % 2 = 0 := k3
+  have k4' : f2.gen ≠ 0 := k4
+  have k5' : f2.version = 1 := k5
+  have k2' : f2.cells = rec2 := k2
+  simp only [ReaderA.snap]
+  rw [if_neg (by simp only [k5']; omega)]
+  exact k2'
 
 /-- (d) a file the daemon had to re-create is 72 bytes long with the documented header -/
 theorem recreated_layout (f : FileA) (rec : List Nat) (h : f.usable = false) :
     (runAll f rec).len = 72 ∧ (runAll f rec).size = 72 ∧ (runAll f rec).magic0 = true ∧
     (runAll f rec).magic1 = true ∧ (runAll f rec).gen = 2 := by
-  sorry
+  rw [runAll_unusable f rec h]; simp [finalFresh]
 
 /-- (d) while an unusable file is being re-created nobody can attach: it stays unusable at every
     crash point up to (and including) the one just before the first generation store takes effect -/
 theorem unusable_until_first_publication_starts (f : FileA) (rec : List Nat) (k : Nat)
     (h : f.usable = false) (hk : k ≤ 15 + hdrLoads f) : (runUntil f rec k).1.usable = false := by
-  sorry
+  have hn : ∀ g : FileA, (g.len < 16 ∨ g.gen = 0) → g.usable = false := by
+    intro g hg
+    cases hu : g.usable
+    · rfl
+    · obtain ⟨_, h2, _, _, _, h6, _⟩ := (usable_iff g).1 hu
+      omega
+  rcases runUntil_unusable_prefix f rec k h hk with e | e
+  · rw [e]; exact h
+  · exact hn _ e
 
 /-- (a)+(b) at the file level: a client attached to a usable segment obtains, after the crash, only a
     complete record (the prior one, the first incarnation's, or its empty initial record when the
@@ -62,12 +95,55 @@ theorem attached_reader_across_restart (f : FileA) (rec1 rec2 : List Nat) (k : N
     let r1 := r0.snap f1
     let r2 := r1.snap (runAll f1 rec2)
     (r1.cache = f.cells ∨ r1.cache = rec1 ∨ r1.cache = List.replicate 7 0) ∧ r2.cache = rec2 := by
-  sorry
+  obtain ⟨h1, h2, h3, h4, h5, h6, h7⟩ := (usable_iff f).1 h
+  have hf1u := (usable_preserved f rec1 k h hg).1
+  have hs := genStart_odd f.gen
+  have hss := genStart_idem f.gen
+  have hso := genStart_of_odd f.gen
+  have hn0 := genFinish_ne_zero (genStart f.gen)
+  have hne := genFinish_even _ hs
+  have hnn := genNext_ne f.gen hg
+  have hnlt := genFinish_lt (genStart f.gen)
+  have hm0 := genFinish_ne_zero (genStart (genFinish (genStart f.gen)))
+  have hme := genFinish_even _ (genStart_odd (genFinish (genStart f.gen)))
+  have hmn := genNext_ne _ hnlt
+  dsimp only
+  rw [runAll_usable _ rec2 hf1u]
+  -- five possible files left behind × the `if`s of the three snapshots: arithmetic on the generations
+  rcases runUntil_usable_cases f rec1 k h with e | e | e | e | e <;> rw [e] <;>
+    simp only [ReaderA.snap, finalUsable, hss] <;> (repeat' split) <;> (dsimp only at *) <;>
+    first | omega | simp
 
 /-- the oracle evaluated on the implementation holds of the model's own prediction -/
 theorem model_holds (p : Prior) (k k1 k2 : Nat) (hp : p.file.gen < 65536) :
     HoldsFile p k1 k2 (predict p k k1 k2) = true := by
-  sorry
+  have hrep := restart_repairs p.file (recCells k1) (recCells k2) k hp
+  dsimp only at hrep
+  obtain ⟨_, _, _, _, _, hfresh⟩ := hrep
+  have efresh : (predict p k k1 k2).fresh = cellsText (recCells k2) := by
+    rw [predict_fresh]; exact congrArg cellsText hfresh
+  unfold HoldsFile
+  cases hu : p.file.usable
+  · simp [efresh, predict_att1_unusable p k k1 k2 hu, predict_att2_unusable p k k1 k2 hu]
+  · obtain ⟨q1, q2, q3, _⟩ := usable_preserved p.file (recCells k1) k hu hp
+    have hatt := attached_reader_across_restart p.file (recCells k1) (recCells k2) k hu hp
+    dsimp only at hatt
+    obtain ⟨a1, a2⟩ := hatt
+    have hpres : p.file.present = true := ((usable_iff _).1 hu).1
+    have hlen := prior_usable_len p hu
+    have e1 : (predict p k k1 k2).len1 = 72 := by
+      rw [predict_len1, q3, if_pos rfl, q2, hlen]; rfl
+    have e2 : (predict p k k1 k2).len2 = 72 := by
+      rw [predict_len2, pf2, runAll_usable _ _ q1]
+      show ((pf1 p k k1).len : Int) = 72
+      rw [q2, hlen]; rfl
+    have e3 : (predict p k k1 k2).open1 = "ok" := by
+      rw [predict_open1]; exact openText_usable _ q1
+    have e4 : (predict p k k1 k2).att2 = cellsText (recCells k2) := by
+      rw [predict_att2_usable p k k1 k2 hu]; exact congrArg cellsText a2
+    have e5 := predict_att1_usable p k k1 k2 hu
+    rw [predict_inodeSame, hpres, efresh, e1, e2, e3, e4, e5]
+    rcases a1 with a | a | a <;> rw [a] <;> simp
 
 example : (runUntil (Prior.valid 4 90).file (recCells 1) 9).2 = some .storeGenOdd := by decide
 example : (runUntil Prior.missing.file (recCells 1) 7).1.len = 16 := by decide
